@@ -13,7 +13,9 @@ import (
 	"bytes"
 	"encoding/json"
 	"fmt"
+	"math/bits"
 	"runtime"
+	"sort"
 	"sync"
 
 	"github.com/33cn/chain33/common/address"
@@ -282,7 +284,8 @@ func main() {
 	setup()
 	maxPool := r.Pick(4, 5)
 	maxAged := r.Pick(1, 2)
-	r.Rule = fmt.Sprintf("pool = every ordered selection of <=%d of {a, b, eh(expires at height 5), et(expires at block time T), X0, X1, X3, Y5} pushed into a real Mempool, first 0..%d entries aged 600 s; queries = EventTxList with every count 1..n+1 x every exclusion subset of the pool's hashes x headers {(3,T-1),(4,T-1),(3,T),(4,T)} x current nonces (X,Y) in {(0,5),(1,4),(2,5),(3,6)} x both iteration orders of the per-sender map when two eth senders are present. states = distinct (ordered pool, aged prefix); transitions = pushes; distinct = distinct reply shapes (how many plain / eth entries, cut by count, nonce gap...)", maxPool, maxAged)
+	thinMasks := r.Quick()
+	r.Rule = fmt.Sprintf("pool = every ordered selection of <=%d of {a, b, eh(expires at height 5), et(expires at block time T), X0, X1, X3, Y5} pushed into a real Mempool, first 0..%d entries aged 600 s; queries = EventTxList with every count 1..n+1 x every exclusion subset of the pool's hashes (quick tier: pools of the largest size get the empty, singleton and full lists only) x headers {(3,T-1),(4,T-1),(3,T),(4,T)} x current nonces (X,Y) in {(0,5),(1,4),(2,5),(3,6)} x both iteration orders of the per-sender map when two eth senders are present. states = distinct (ordered pool, aged prefix); transitions = pushes; distinct = distinct reply shapes (how many plain / eth entries, cut by count, nonce gap...)", maxPool, maxAged)
 	r.Assume = []string{
 		"the current-nonce query is answered by a scripted \"rpc\" module on the real queue",
 		"per-sender nonce order is required within a sender; the relative order of different eth senders is free (both orders of the map iteration are forced and both must satisfy the predicates)",
@@ -335,6 +338,7 @@ func main() {
 		}
 	}
 	rec(nil, 0)
+	sort.SliceStable(pools, func(i, j int) bool { return len(pools[i]) < len(pools[j]) }) // small pools first
 
 	type fail struct {
 		fp, what string
@@ -383,6 +387,9 @@ func main() {
 							for _, k.Nonce = range ns {
 								for k.Count = 1; k.Count <= int64(len(pool))+1; k.Count++ {
 									for k.Exclude = 0; k.Exclude < 1<<uint(len(pool)); k.Exclude++ {
+										if thinMasks && len(pool) == maxPool && bits.OnesCount32(k.Exclude) > 1 && k.Exclude != 1<<uint(len(pool))-1 {
+											continue // quick tier: largest pools get the empty, singleton and full exclusion lists only
+										}
 										got, err := e.query(mem, &k)
 										nq++
 										if err != "" {
@@ -391,6 +398,10 @@ func main() {
 										}
 										fp, what, names := judge(&k, got)
 										if fp != "" {
+											r.Count("violating_queries", 1)
+											if len(fails[w]) > 2000 {
+												continue
+											}
 											kk := k
 											kk.Pool = append([]int{}, k.Pool...)
 											fails[w] = append(fails[w], fail{fp, what, kk})
@@ -437,7 +448,6 @@ func main() {
 				best[f.fp] = f
 			}
 		}
-		r.Count("violating_queries", int64(len(all)))
 		for _, f := range best {
 			f := f
 			r.Violate(f.fp, fmt.Sprintf("%s; pool (arrival order) = %v, first %d aged, header (h%d,T%+d), current nonces X=%d Y=%d, count %d, excluded mask %b, reverse sender order %v", f.what, f.k.Names, f.k.Aged, f.k.Header[0], f.k.Header[1]-tExp, f.k.Nonce[0], f.k.Nonce[1], f.k.Count, f.k.Exclude, f.k.Reverse), f.k, func() string {
